@@ -241,7 +241,10 @@ class Hardware:
         name = local["name"]
         # Components default and expand their bindings in place, so give
         # them their own copy and leave the parsed bindings untouched
-        binding = deepcopy(self.bindings.get_component(name))
+        # Note: copy per Einsum, since a list shared by two Einsums through a
+        # YAML alias would otherwise stay shared within the copy
+        binding = {einsum: deepcopy(einsum_bindings) for einsum, einsum_bindings
+                   in self.bindings.get_component(name).items()}
 
         component = class_(name, num_instances, local["attributes"], binding)
         self.components[config][component.get_name()] = component
